@@ -333,4 +333,103 @@ theorem try_join_async_every_schedule (c : SpecCfg) (pend : Pend) (htry : c.kind
   rw [← c1]
   exact List.Perm.append_left _ r2
 
+/-! ### 5. the whole block, handler included -/
+
+/-- the handler does not panic -/
+def NoHandlerPanic (σ : World) : Prop := ∀ vs, isPanicUR (σ.handlerCall vs) = false
+
+theorem specRun_eq_cfg (σ : World) (parent : Option String) (p : Input) (kind : Kind) :
+    specRun σ parent p kind = specRunCfg (cfgFor σ parent p kind) (p.handler.map Prod.fst) := by
+  unfold specRun specRunCfg specRunCfgL cfgFor
+  cases p.handler <;> rfl
+
+theorem handlerPlan_nostop (c : SpecCfg) (pendH : PendH) (h : Option HKind) (hnh : NoHandlerPanic c.σ) (r : Res Fin) :
+    (handlerPlan c pendH h r).2.NoStop := by
+  unfold handlerPlan
+  split
+  · split
+    · exact .done _
+    · refine .step _ _ _ _ _ ?_ (fun _ => .done _)
+      intro t ht
+      simp only [List.mem_singleton] at ht
+      subst ht
+      exact hnh _
+  · exact .done _
+
+/-- **Every schedule, handler included.**  `join_async!{ p }` / `join_async_spawn!{ p }` with or without a `then`
+    handler, the handler's returned future awaited with arbitrary pending points `pendH` of its own: whatever gates are
+    open at the successive polls (any order, any batches, spurious polls), once the future is polled with every gate open
+    it is complete; its result is the result of the generated code, and over all polls it has emitted the generated code's
+    events — handler definition, block captures, chains, the one handler call — each exactly once. -/
+theorem join_async_every_schedule_handler (σ : World) (parent : Option String) (p : Input) (kind : Kind) (code : Code)
+    (hs : Supported p kind) (ha : kind.isAsync = true) (hgen : gen p kind = .ok code)
+    (hnp : NoChainPanic σ) (hnh : NoHandlerPanic σ) (pend : Pend) (pendH : PendH) (gs : List Gates) :
+    let pr := planRun (cfgFor σ parent p kind) pend pendH (p.handler.map Prod.fst)
+    (pr.2.run (gs ++ [allOpen])).2 = .done (evalCode σ parent code).res ∧
+    (pr.1 ++ (pr.2.run (gs ++ [allOpen])).1).Perm (evalCode σ parent code).trace := by
+  intro pr
+  have htry : kind.isTry = false := hs.asyncNotTry ha
+  have hth : (cfgFor σ parent p kind).kind.threads = false := by
+    show kind.threads = false
+    simp [Kind.threads, ha]
+  obtain ⟨c1, c2⟩ := planRun_canon (cfgFor σ parent p kind) pend pendH (p.handler.map Prod.fst) hth htry
+  have hns : pr.2.NoStop := by
+    show (planRun (cfgFor σ parent p kind) pend pendH (p.handler.map Prod.fst)).2.NoStop
+    unfold planRun
+    simp only
+    have hb := Plan.bind_nostop (handlerPlan (cfgFor σ parent p kind) pendH (p.handler.map Prod.fst)) stopMap
+      (handlerPlan_nostop _ pendH _ hnh) _ (planLoop_nostop (cfgFor σ parent p kind) pend hnp htry
+        ((cfgFor σ parent p kind).maxDepth - 1) 0 (List.replicate (cfgFor σ parent p kind).n none))
+    split
+    · exact hb
+    · split
+      · exact .done _
+      · exact hb
+  obtain ⟨r1, r2⟩ := Plan.run_complete gs pr.2 hns
+  rw [sync_refines σ parent p kind code hs hgen, specRun_eq_cfg]
+  refine ⟨by rw [r1, c2], ?_⟩
+  rw [← c1]
+  exact List.Perm.append_left _ r2
+
+theorem specRunAT_eq_cfg (σ : World) (parent : Option String) (p : Input) (kind : Kind) :
+    specRunAT σ parent p kind =
+      specRunCfgL (specLoopAT (cfgFor σ parent p kind) ((cfgFor σ parent p kind).maxDepth - 1) 0
+        (List.replicate (cfgFor σ parent p kind).n none)) (cfgFor σ parent p kind) (p.handler.map Prod.fst) := by
+  unfold specRunAT specRunCfgL cfgFor
+  cases p.handler <;> rfl
+
+/-- **Every schedule, async try macros, handler included**: `try_join_async!{ p }` / `try_join_async_spawn!{ p }` with or
+    without a `map` / `and_then` handler, in a world in which every chain succeeds and the handler does not panic: whatever
+    the schedule of gate openings, once polled with every gate open the future is complete with the generated code's
+    result, having emitted the generated code's events each exactly once.  (When a chain fails, which failure is returned
+    depends on the schedule: C05.) -/
+theorem try_join_async_every_schedule_handler (σ : World) (parent : Option String) (p : Input) (kind : Kind) (code : Code)
+    (hs : SupportedAT p kind) (hgen : gen p kind = .ok code) (hall : AllSucceed σ) (hnh : NoHandlerPanic σ)
+    (pend : Pend) (pendH : PendH) (gs : List Gates) :
+    let pr := planRun (cfgFor σ parent p kind) pend pendH (p.handler.map Prod.fst)
+    (pr.2.run (gs ++ [allOpen])).2 = .done (evalCode σ parent code).res ∧
+    (pr.1 ++ (pr.2.run (gs ++ [allOpen])).1).Perm (evalCode σ parent code).trace := by
+  intro pr
+  have htry : (cfgFor σ parent p kind).kind.isTry = true := hs.isTry
+  obtain ⟨c1, c2⟩ := planRun_canon_gen (cfgFor σ parent p kind) pend pendH (p.handler.map Prod.fst) _
+    (planLoop_canon_try (cfgFor σ parent p kind) pend htry ((cfgFor σ parent p kind).maxDepth - 1) 0
+      (List.replicate (cfgFor σ parent p kind).n none))
+  have hns : pr.2.NoStop := by
+    show (planRun (cfgFor σ parent p kind) pend pendH (p.handler.map Prod.fst)).2.NoStop
+    unfold planRun
+    simp only
+    have hb := Plan.bind_nostop (handlerPlan (cfgFor σ parent p kind) pendH (p.handler.map Prod.fst)) stopMap
+      (handlerPlan_nostop _ pendH _ hnh) _ (planLoop_nostop_try (cfgFor σ parent p kind) pend hall
+        ((cfgFor σ parent p kind).maxDepth - 1) 0 (List.replicate (cfgFor σ parent p kind).n none))
+    split
+    · exact hb
+    · split
+      · exact .done _
+      · exact hb
+  obtain ⟨r1, r2⟩ := Plan.run_complete gs pr.2 hns
+  rw [async_try_refines σ parent p kind code hs hgen, specRunAT_eq_cfg]
+  refine ⟨by rw [r1, c2], ?_⟩
+  rw [← c1]
+  exact List.Perm.append_left _ r2
+
 end JoinModel.Props.C09
